@@ -272,11 +272,12 @@ CELLS = [{"cell": "default", "cflags": ()}, {"cell": "dict_versions", "cflags": 
          {"cell": "O2", "cflags": ("-O2",)}]
 
 
-def build_mods():
-    specs = [{"name": "wl14_" + c["cell"], "src": SRC, "ext": ".py", "cflags": c["cflags"]} for c in CELLS]
+def build_mods(cells=None, tag=""):
+    cells = cells or CELLS
+    specs = [{"name": "wl14_" + tag + c["cell"], "src": SRC, "ext": ".py", "cflags": c["cflags"]} for c in cells]
     sos = build.build_many(specs)
     mods = []
-    for c, sp, so in zip(CELLS, specs, sos):
+    for c, sp, so in zip(cells, specs, sos):
         if isinstance(so, Exception):
             raise core.HarnessError("C14 workload build failed (%s): %s" % (c["cell"], str(so)[-800:]))
         mods.append({"name": sp["name"], "so": so, "src": SRC, "cell": c["cell"]})
